@@ -15,6 +15,7 @@ From Coq Require Import QArith Reals List Bool Lra.
 From Coquelicot Require Import Coquelicot.
 Import ListNotations.
 From TT Require Import Num NumR NumI ParamI Tree G_tuning M_mcmc P_mcmc P_mcmc_param.
+From TT Require Import P_det_def P_tridet M_gmrf P_block_gauss.
 Open Scope R_scope.
 
 (* 1. The carried log density is the target at the current state, at every iteration of every
@@ -172,12 +173,51 @@ Theorem hastings_precision_mixture : forall s m tau, 1 < s -> 0 < m -> 0 < tau -
   0 < fwd /\ ln (bwd / fwd) = 0.
 Proof. exact hastings_precision_l. Qed.
 Print Assumptions hastings_precision_mixture.
-(* hastings_gaussian_block (NOT proved): given U^T U = Q + diag(w exp(-mode)) and exact triangular
-   solves, sum(log diag U) - z.z/2 and sum(log diag U_b) - (gamma - mu_b)^T Q_b (gamma - mu_b)/2 are the
-   Gaussian log densities of the forward / backward proposals up to the common constant -n/2 ln(2 pi).
-   The matrix algebra is not formalised; the correspondence recomputes both log densities with
-   independent dense linear algebra on every recorded block move (hastings_dirichlet covers the
-   "difference of the two log terms" part). *)
+(* 7b. Block-updating operator, Gaussian proposal of the field (proof/P_block_gauss.v; matrices as lists of rows read
+   through [entry], any dimension n).  The operator factorises the precision QW = Q + diag(w exp(-mode)) of its
+   Gaussian approximation as U^T U (U upper triangular, positive diagonal: [chol_of]), draws z ~ N(0, I), solves
+   U u = z and proposes gamma' = mu + u; it reports
+       log_q_forward  = sum_i ln U_ii - z.z / 2
+       log_q_backward = sum_i ln Ub_ii - (gamma - mu_b) . QW_b (gamma - mu_b) / 2
+   and returns their difference.  [lgauss_chol n mu U y] is the log density at y of the image of a standard normal
+   vector under the affine bijection z |-> mu + U^-1 z (change of variables: C15_gaussian_density_is_change_of_variables;
+   the solve has exactly one solution: C15_back_substitution), i.e. of N(mu, (U^T U)^-1).  Both reported quantities are
+   these log densities up to the SAME constant n/2 ln(2 pi), so the returned value IS the log ratio of the reverse to
+   the forward proposal density; and the mean the code computes by two triangular solves is QW^-1 b. *)
+Theorem hastings_gaussian_block : forall n gamma gamma' mu_f U_f u z QW_b mu_b U_b,
+  chol_shape n U_f -> length mu_f = n -> length u = n ->
+  matvec NumR U_f u = z -> gamma' = vadd mu_f u ->
+  chol_of n QW_b U_b -> length gamma = n -> length mu_b = n ->
+  log_q_backward n U_b QW_b gamma mu_b - log_q_forward n U_f z =
+  lgauss_chol n mu_b U_b gamma - lgauss_chol n mu_f U_f gamma'.
+Proof. exact P_block_gauss.hastings_gaussian_block. Qed.
+Print Assumptions hastings_gaussian_block.
+Theorem C15_gaussian_density_is_change_of_variables : forall n mu U y, length U = n ->
+  lgauss_chol n mu U y =
+  rsum (map (fun t => ln (phi t)) (matvec NumR U (vsub y mu))) + ln (Rabs (ldet NumR n U)).
+Proof. exact lgauss_chol_change_of_variables. Qed.
+Print Assumptions C15_gaussian_density_is_change_of_variables.
+Theorem C15_gaussian_density_precision_form : forall n QW mu U y,
+  chol_of n QW U -> length (vsub y mu) = n ->
+  lgauss_chol n mu U y =
+  - (1/2) * quad NumR QW (vsub y mu) + rsum (map ln (diagonal n U)) - half_n_ln2pi n.
+Proof. exact lgauss_chol_precision_form. Qed.
+Print Assumptions C15_gaussian_density_precision_form.
+Theorem C15_back_substitution : forall n U z, chol_shape n U -> length z = n ->
+  exists u, length u = n /\ matvec NumR U u = z /\ forall u', length u' = n -> matvec NumR U u' = z -> u' = u.
+Proof. exact back_substitution. Qed.
+Print Assumptions C15_back_substitution.
+Theorem C15_block_mean_solves : forall n QW U b v mu,
+  length QW = n -> length U = n -> length mu = n ->
+  mat_eq n QW (mm n (transpose n U) U) ->
+  matvec NumR (transpose n U) v = b -> matvec NumR U mu = v -> matvec NumR QW mu = b.
+Proof. exact mean_solves. Qed.
+Print Assumptions C15_block_mean_solves.
+Example C15_block_example := block_step_example.
+(* Assumed, as data of the move: the Newton iteration's mode, the Cholesky factorisation and the triangular solves are
+   exact (the correspondence recomputes both log densities with independent dense linear algebra on every recorded
+   block move); the code sums ln over the diagonal entries above 1e-7 only, which is the full sum when every entry
+   exceeds it (filter_log_sum in the proof file). *)
 
 (* 8. Tuning.  Over the getter / setter / tune expressions regenerated from the sources: for every
    operator kind, every field value in its domain, every adaptation count, acceptance probability
